@@ -174,7 +174,7 @@ class ResendRule(BaseRule):
                     tags |= {f"{nm}:{x}" for x in v.tags}
             return ret(AV("obj", "pool", truth=True, none=False, typ=f"{CP}.HTTPConnectionPool", tags=frozenset(tags)))
         if isinstance(f, ast.Attribute) and f.attr == "is_same_host" and recv is not None and recv.kind != "self":
-            a = pos[0] if pos else UNK
+            a = pos[0] if pos else kw.get("url", UNK)
             s = st.copy()
             s.ts["same_host_arg"] = tuple(sorted(a.tags))
             s.ts["same_host_recv"] = recv.val if recv.kind == "obj" else "?"
@@ -231,7 +231,7 @@ class ResendRule(BaseRule):
             a = pos[0] if pos else UNK
             return ret(AV("unk", tags=frozenset(a.tags | {t}), truth=a.truth, none=False))
         if t == "self.is_same_host":
-            a = pos[0] if pos else UNK
+            a = pos[0] if pos else kw.get("url", UNK)
             s = st.copy()
             s.ts["pool_same_host_arg"] = tuple(sorted(a.tags))
             return [Out("normal", s, AV("unk", sym="pool_same_host", tags=frozenset({"arg:" + x for x in a.tags})))]
